@@ -504,8 +504,22 @@ class ExprMixin:
             return self.bind(self.eval(e.value, st), k)
 
         def k2(s, vals):
-            return self.split_union(s, self.index(s, vals[0], vals[1], e))
+            v = self.index(s, vals[0], vals[1], e)
+            # in a specification a union-shaped element stays one value (spec functions and isinstance read it by cases)
+            return [(s, v)] if self.spec_mode else self.split_union(s, v)
         return self.bind(self.eval_list([e.value, e.slice], st), k2)
+
+    def nonneg(self, s, i) -> bool:
+        """is `i >= 0` known on this path?  Cheap syntactic look-up first (a conjunct of the path condition says so), the solver last"""
+        for c in reversed(s.pc[-40:]):
+            for d in (c.children() if z3.is_and(c) else [c]):
+                if z3.is_app(d) and d.num_args() == 2:
+                    a, b = d.arg(0), d.arg(1)
+                    k = d.decl().kind()
+                    if ((k == z3.Z3_OP_GE and z3.eq(a, i) and z3.is_int_value(b) and b.as_long() >= 0)
+                            or (k == z3.Z3_OP_LE and z3.eq(b, i) and z3.is_int_value(a) and a.as_long() >= 0)):
+                        return True
+        return not self.feasible(s, i < 0)
 
     def norm_index(self, n, i):
         return z3.If(i < 0, i + n, i)
@@ -561,13 +575,16 @@ class ExprMixin:
             self.safety(s, z3.And(i >= -n, i < n), f"subscript `{ast.unparse(node)[:60]}` in range (IndexError)", node)
             # Python's negative-index wrap is only encoded when the index may actually be negative on this path
             # (keeps `seq[j]` terms in the plain form the instantiated lemmas talk about)
-            j = self.norm_index(n, i) if self.feasible(s, i < 0) else i
+            j = i if self.nonneg(s, i) else self.norm_index(n, i)
             if is_str(v):
                 return z3.SubString(v, j, 1)
             return v[j]
         if isinstance(v, PyComp):
             self.safety(s, z3.And(i >= -v.length, i < v.length), f"subscript `{ast.unparse(node)[:60]}` in range (IndexError)", node)
-            return v.at(self.norm_index(v.length, i) if self.feasible(s, i < 0) else i)
+            si = z3.simplify(i)
+            if z3.is_int_value(si):
+                return v.at(si if si.as_long() >= 0 else v.length + si)
+            return v.at(i if self.nonneg(s, i) else self.norm_index(v.length, i))
         if isinstance(v, PyMap):
             self.safety(s, z3.Select(v.present, i), f"key present in `{ast.unparse(node)[:60]}` (KeyError)", node)
             return z3.Select(v.value, i)
